@@ -464,8 +464,12 @@ func analyzeFunc(
 	// Do the actual backpropagation.
 	funcTriggers, _, _, err := assertiontree.BackpropAcrossFunc(ctx, pass, funcDecl, funcContext, graph)
 
-	// If any error occurs in back-propagating the function, we wrap the error with more information.
-	if err != nil {
+	// If the assertion trees of the function grew too large, the function is skipped in the same way
+	// as a function with too many CFG blocks (see run). If any other error occurs in back-propagating
+	// the function, we wrap the error with more information.
+	if errors.Is(err, assertiontree.ErrFuncTooLarge) {
+		err = fmt.Errorf("skipping function `%s()` at %s: %w", funcDecl.Name.Name, pass.Fset.Position(funcDecl.Pos()), err)
+	} else if err != nil {
 		pos := pass.Fset.Position(funcDecl.Pos())
 		err = fmt.Errorf("analyzing function %s at %s:%d.%d: %w", funcDecl.Name, pos.Filename, pos.Line, pos.Column, err)
 	}
